@@ -3,7 +3,7 @@ from .pipeline import Job
 
 
 def register(J):
-    J.append(Job("rfwc", ["C06", "C16", "C13", "C20"], "harness/rfwc.c",
+    J.append(Job("rfwc", ["C06", "C16", "C13", "C20", "C05"], "harness/rfwc.c",
                  sources=["lib/getfilecontents.c"], stubs=["stubs/fs_rfwc.c"],
                  contracts=["contracts/rfwc.h"], enforce="read_file_with_callback",
                  replace=["read_file", "get_absolute_path", "econf_freeFile"],
@@ -17,7 +17,8 @@ def register(J):
                            "parser; C06: callback exactly once with the exact path/data before the parser, "
                            "rejection -> ECONF_PARSING_CALLBACK_FAILED and nothing used; the parser's "
                            "precondition (gate passed, callback accepted) holds at its only call; "
-                           "C13/C20: parse failure frees the object once and clears the out-pointer."))
+                           "C13/C20: parse failure frees the object once and clears the out-pointer. C05: the parser is "
+                           "entered with the caller's delimiter set and comment set, \"#\" for an empty comment set."))
     for n, fn in enumerate(["econf_requireOwner", "econf_requireGroup", "econf_requirePermissions",
                             "econf_followSymlinks", "econf_reset_security_settings"], 1):
         J.append(Job("security." + fn, ["C16", "C18"], "harness/security.c", sources=["lib/libeconf.c"],
